@@ -120,7 +120,20 @@ func (l *listener) Serve() error {
 		}
 	}
 
+	l.mu.Lock()
 	l.ln = ln
+	l.mu.Unlock()
+	// Stop or Drain may have looked for the socket before it was there,
+	// nobody would close it then.
+	select {
+	case <-l.quit:
+		ln.Close()
+		return nil
+	case <-l.drain:
+		ln.Close()
+		return nil
+	default:
+	}
 	l.Infof("start serving at %s", ln.Addr().String())
 	l.serve()
 	l.Infof("stop serving at %s, waiting all conns done", ln.Addr().String())
@@ -256,8 +269,11 @@ func (l *listener) Drain() error {
 	l.drainOnce.Do(func() {
 		close(l.drain)
 	})
-	if l.ln != nil {
-		l.ln.Close()
+	l.mu.Lock()
+	ln := l.ln
+	l.mu.Unlock()
+	if ln != nil {
+		ln.Close()
 	}
 	return nil
 }
@@ -276,10 +292,11 @@ func (l *listener) Stop() error {
 	for conn := range l.conns {
 		conns = append(conns, conn)
 	}
+	ln := l.ln
 	l.mu.Unlock()
 
-	if l.ln != nil {
-		l.ln.Close()
+	if ln != nil {
+		ln.Close()
 	}
 	for _, conn := range conns {
 		conn.Close()
